@@ -57,6 +57,9 @@ def run(ctx):
     import locklib
     ctx.rule('R06.7', 'submitting never blocks: channels that carry commands to store workers / voting threads are unbounded')
     ctx.floor('R06.7', locklib.rule_command_channels(ctx, 'R06.7'), 3)
+    import trackerlib as T_
+    ctx.rule('R06.8', 'one job per scene of a batch: the request keeps one entry per scene id (entries selected by id)')
+    ctx.floor('R06.8', T_.rule_batch_request(ctx, 'R06.8'), 2)
 
 
 def sent_agg(body, eb, c, suffix):
